@@ -15,4 +15,4 @@ for c in man['checks']:
     cov = e['coverage']
     be = ', '.join('%s %s' % (k, v) for k, v in sorted(cov.get('backends', {}).items(), key=lambda kv: -kv[1]))
     print('| %s | %s | %d | %d (%d) | %s | %s | %.0f |' % (p, e.get('level'), len(cov.get('functions_under_contract', [])), cov.get('obligations', 0),
-          cov.get('discharged', 0), be, cov.get('evaluations', 0), e.get('wall_s', 0)))
+          cov.get('discharged', 0), be, (cov.get('bounded') or [{}])[0].get('evaluations', 0), e.get('wall_s', 0)))
